@@ -130,6 +130,32 @@ fn cases(tier: Tier) -> &'static Vec<Case> {
                 }
             }
         }
+        // ---- very many messages of one kind on one connection (nothing may accumulate per
+        // message: stack frames, queued triggers, buffers)
+        {
+            let count = if deep(tier) { 50_000 } else { 5_000 };
+            let kinds: Vec<(&str, Vec<u8>)> = vec![
+                ("many-refused-505", b"GET / HTTP/2.0\r\n\r\n".to_vec()),
+                ("many-refused-505", b"POST / HTTP/3.0\r\nContent-Length: 3\r\n\r\nabc".to_vec()),
+                ("many-valid", b"GET /m HTTP/1.1\r\nHost: t\r\n\r\n".to_vec()),
+                ("many-valid", b"POST /m HTTP/1.1\r\nHost: t\r\nContent-Length: 3\r\n\r\nabc".to_vec()),
+                ("many-valid", b"POST /m HTTP/1.1\r\nHost: t\r\nTransfer-Encoding: chunked\r\n\r\n3\r\nabc\r\n0\r\n\r\n".to_vec()),
+                ("many-expect-continue", b"POST /m HTTP/1.1\r\nHost: t\r\nExpect: 100-continue\r\nContent-Length: 3\r\n\r\nabc".to_vec()),
+            ];
+            for (class, one) in kinds {
+                let mut bytes = Vec::with_capacity(one.len() * count + 64);
+                for _ in 0..count {
+                    bytes.extend_from_slice(&one);
+                }
+                bytes.extend_from_slice(&get("/done"));
+                for (hn, plan) in &hs {
+                    if class == "many-refused-505" && !hn.starts_with("read0") {
+                        continue;
+                    }
+                    v.push(mk(class, bytes.clone(), plan, Step::CloseWrite));
+                }
+            }
+        }
         // ---- chunk-size lines
         for digits in [1usize, 8, 15, 16, 17, 40] {
             for lead in ["f", "7", "0"] {
@@ -257,7 +283,7 @@ fn overhead() -> usize {
     let mut worst = 0;
     for _ in 0..3 {
         let base = alloc::reset();
-        let _ = run_scenario(&sc, &RunCfg::default());
+        let _ = run_scenario(&sc, &RunCfg { lean: true, ..RunCfg::default() });
         worst = worst.max(alloc::measure(base).0);
     }
     OVERHEAD.with(|c| c.set(worst.max(1)));
@@ -270,9 +296,12 @@ fn run_case(c: &Case, acc: &mut Acc, trace: bool) {
     let ov = overhead();
     let received: usize = client_bytes(&c.sc);
     let base = alloc::reset();
-    let rc = RunCfg { trace, ..RunCfg::default() };
+    // measured without the runtime's per-step records (decision list, trace), which grow with
+    // the length of the execution and belong to the machinery, not to tiny-http
+    let rc = RunCfg { lean: true, ..RunCfg::default() };
     let (obs, res) = run_scenario(&c.sc, &rc);
     let (peak, largest) = alloc::measure(base);
+    let traced = if trace { Some(run_scenario(&c.sc, &RunCfg { trace: true, ..RunCfg::default() }).1) } else { None };
     acc.evals += 1;
     acc.nontrivial += 1;
     account_run(acc, &res);
@@ -287,6 +316,11 @@ fn run_case(c: &Case, acc: &mut Acc, trace: bool) {
     }
     // per-line bookkeeping (a 4-byte header line costs two small heap strings, here and in
     // the observation) makes the constant of proportionality large, but it is a constant
+    // the harness keeps what the server answered (5 000 refused 18-byte requests produce
+    // 5 000 responses of ~180 bytes): bytes in both directions count as "traffic"
+    let answered: usize = obs.conns.iter().map(|c| c.received.len()).sum();
+    let received_only = received;
+    let received = received + answered;
     let peak_bound = ov + SLACK + 64 * received;
     // (10^4 tiny header lines: the Vec of 48-byte Header structs alone is ~6 x the bytes received)
     let single_bound = SLACK + 16 * received;
@@ -295,18 +329,18 @@ fn run_case(c: &Case, acc: &mut Acc, trace: bool) {
     } else if largest > single_bound {
         fails.push((
             format!("allocation:{}", c.class),
-            format!("a single allocation of {} bytes although the client sent only {} bytes (bound 64 KiB + 16 x received)", largest, received),
+            format!("a single allocation of {} bytes although the client sent only {} bytes and got {} back (bound 64 KiB + 16 x traffic)", largest, received_only, answered),
         ));
     } else if peak > peak_bound {
         fails.push((
             format!("allocation:{}", c.class),
-            format!("peak heap {} bytes for {} bytes received (harness footprint {}, bound footprint + 64 KiB + 64 x received)", peak, received, ov),
+            format!("peak heap {} bytes for {} bytes received and {} answered (harness footprint {}, bound footprint + 64 KiB + 64 x traffic)", peak, received_only, answered, ov),
         ));
     }
     if trace {
         acc.notes.insert(format!(
             "peak heap {} B, largest single allocation {} B, received {} B\n{}\n{}",
-            peak, largest, received, res.trace.join("\n"), serde_json::to_string_pretty(&obs_json(&obs, &res)).unwrap()
+            peak, largest, received, traced.map(|t| t.trace.join("\n")).unwrap_or_default(), serde_json::to_string_pretty(&obs_json(&obs, &res)).unwrap()
         ));
     }
     if fails.is_empty() {
@@ -357,7 +391,7 @@ impl Check for C14 {
     fn rule(&self, tier: Tier) -> String {
         let classes: std::collections::BTreeSet<String> = cases(tier).iter().map(|c| c.class.clone()).collect();
         format!(
-            "adversarial conversations in {} classes ({:?}...): Content-Length from 0 to 10^30 x bytes actually sent {{0, 3, all}}; chunk-size lines of 1..40 hex digits truncated at every syntactic position; a chunked conversation cut at every offset; 10^3{} header lines; lines of {} bytes; NUL/control/8-bit/CR/LF/SP/colon at every position of a head; TE request header values of the malformed-q class; client reset/closed before the server looks at the connection (TCP-like and UNIX-like); a complete body of {{1..20000}} bytes (declared or chunked, with or without Expect) followed in the same segment by a pipelined request or surplus bytes - crossed with handlers read none / 1 byte / all x respond / drop; {} scenarios, each run in a worker process with a 6 GiB address-space cap; oracle: the worker survives, no panic passes through tiny_http code, largest single allocation <= 64 KiB + 16 x bytes received, peak heap <= harness footprint + 64 KiB + 64 x bytes received",
+            "adversarial conversations in {} classes ({:?}...): Content-Length from 0 to 10^30 x bytes actually sent {{0, 3, all}}; chunk-size lines of 1..40 hex digits truncated at every syntactic position; a chunked conversation cut at every offset; 10^3{} header lines; lines of {} bytes; NUL/control/8-bit/CR/LF/SP/colon at every position of a head; TE request header values of the malformed-q class; client reset/closed before the server looks at the connection (TCP-like and UNIX-like); a complete body of {{1..20000}} bytes (declared or chunked, with or without Expect) followed in the same segment by a pipelined request or surplus bytes; 5 000 (thorough 50 000) messages of one kind on one connection (refused with 505, valid with and without bodies, with Expect: 100-continue) - crossed with handlers read none / 1 byte / all x respond / drop; {} scenarios, each run in a worker process with a 6 GiB address-space cap; oracle: the worker survives, no panic passes through tiny_http code, largest single allocation <= 64 KiB + 16 x traffic, peak heap <= harness footprint + 64 KiB + 64 x traffic (traffic = bytes the client sent + bytes the server answered, which the harness keeps); measured in runs where the runtime records no per-step data",
             classes.len(), classes.iter().take(6).collect::<Vec<_>>(), if full(tier) { "/10^4" } else { "" }, if full(tier) { "1 MiB" } else { "128 KiB" }, cases(tier).len()
         )
     }
@@ -368,6 +402,9 @@ impl Check for C14 {
         ]
     }
     fn replay(&self, replay: &Value, acc: &mut Acc) {
+        if let Some(b) = std::env::var("VERIF_ALLOC_TRACE").ok().and_then(|s| s.parse().ok()) {
+            alloc::trace_from(b);
+        }
         if replay["kind"].as_str() == Some("crash") {
             // a crash is replayed in a subprocess: this process would die with it
             let item = replay["item"].as_u64().unwrap_or(0);
